@@ -199,8 +199,9 @@ def rule_paxis(ctx):
                 continue
             n_sub += 1
             vars_ = in_loop.get(id(n), [])
-            if _is_full_slice(ix):
-                r.ok(construct=None)
+            if _is_full_slice(ix) or (isinstance(ix, ast.Slice) and ix.step is None and ix.upper is not None and isinstance(ix.upper, ast.Name)
+                                      and ix.upper.id in psyms and (ix.lower is None or (isinstance(ix.lower, ast.Constant) and ix.lower.value == 0))):
+                r.ok(construct=None)        # `:` or `:P` / `0:P`: every direction
                 continue
             if vars_ and any(_is_pvar_index(ix, v) for v in vars_):
                 r.ok(construct=_f(fi) + ':' + norm(n), nontrivial=True,
